@@ -110,6 +110,11 @@ namespace enki
         // Also known as grain size in literature.
         uint32_t                m_MinRange;
 
+        // Set by task sets which are heap allocated and owned by nobody: the
+        // scheduler deletes them after its last access, once their (single)
+        // partition has completed.
+        bool                    m_DeleteWhenComplete = false;
+
     private:
         friend class            TaskScheduler;
         uint32_t                m_RangeToRun;
@@ -209,6 +214,7 @@ namespace enki
         void             StopThreads( bool bWait_ );
         void             SplitAndAddTask( uint32_t threadNum_, SubTaskSet subTask_, uint32_t rangeToSplit_ );
         void             WakeThreads( int32_t maxToWake_ = 0 );
+        static void      PartitionComplete( ITaskSet* pTask_ );
 
         TaskPipe*                                                m_pPipesPerThread;
         PinnedTaskList*                                          m_pPinnedTaskListPerThread;
